@@ -139,4 +139,149 @@ func c09Model(c *Ctx) {
 			}
 		}
 	}
+	c09ModelFormat(c, or, w, inputs)
+}
+
+// c09Res is the canonical spelling of a Compact/Indent result: "ok <hex of the bytes appended to dst>" or "err".
+func c09Res(out []byte, err error) string {
+	if err != nil {
+		return "err"
+	}
+	return "ok " + hx(out)
+}
+
+// c09V1Indent runs v1.Indent (in a child when the call is predicted to be able to hang, see c09IndentMayHang).
+func c09V1Indent(w *c09Watch, src []byte, prefix, indent string) (res string, ok bool) {
+	if c09IndentMayHang(src, prefix, indent) {
+		out, errS, status := c09SubIndent(src, prefix, indent, nil)
+		if status != "ok" {
+			return status, true // "timeout" / "crash": differs from every model answer
+		}
+		if errS != "" {
+			return "err", true
+		}
+		return "ok " + hx(out), true
+	}
+	var d bytes.Buffer
+	var err error
+	if w.call(0, "v1.Indent", src, func() { err = jsonv1.Indent(&d, src, prefix, indent) }) {
+		return "", false
+	}
+	if err != nil {
+		return "err", true // on error dst must be left as it was: checked byte for byte in part A
+	}
+	return "ok " + hx(d.Bytes()), true
+}
+
+// c09ModelFormat: THREE-WAY correspondence for the models of v1.Compact and v1.Indent (Model/V1.lean `compact`,
+// `indent`: slice C12's Fmt.format + the trailing-whitespace rule + the placeholder replacement for non-blank
+// prefix/indent) and for the second validity recogniser (`validPda`): model = v1 = encoding/json.
+func c09ModelFormat(c *Ctx, or *Oracle, w *c09Watch, inputs [][]byte) {
+	r := c.SubRng(401)
+	type job struct {
+		src            []byte
+		prefix, indent string
+		op             string // "compact" | "indent" | "validpda"
+	}
+	var jobs []job
+	// the D4 grid: sources with trailing whitespace x the full 8x8 prefix/indent grid
+	for _, src := range []string{"[1]\n  ", "[1]\n ", "[1]\n", "[1] ", "1\n ", "1\n  ", "{}\n ", "[]\n   \n ", "[1]\n\t ", "[1]\r\n ", "[1] \n", "[\n 1\n]", "[\n  1\n]\n",
+		"{\"a\":[1,2]}\n    ", "[1]\n  x", "\n [1]", " \n [1]\n ", "{\"a\":{\"b\":[{},[],[[1]],\"x\\ny\"]},\"c\":null}\n\n ", "[\"\\n \",\" \"]\n "} {
+		for _, p := range c09Affixes {
+			for _, in := range c09Affixes {
+				jobs = append(jobs, job{[]byte(src), p, in, "indent"})
+			}
+		}
+	}
+	for i, src := range inputs {
+		if !c.Thorough() && i%2 == 1 && len(src) <= 4000 {
+			continue // quick tier: every other generated input (the boundary tables, the grid and the nesting sweeps are all kept)
+		}
+		jobs = append(jobs, job{src, "", "", "validpda"})
+		if len(src) > 4000 {
+			// nesting sweeps: Compact only (the indented form is quadratic in the depth)
+			jobs = append(jobs, job{src, "", "", "compact"})
+			continue
+		}
+		if r.IntN(2) == 0 {
+			jobs = append(jobs, job{src, "", "", "compact"})
+		}
+		if r.IntN(2) == 0 {
+			bl := []string{"", " ", "\t", "  "}
+			jobs = append(jobs, job{src, bl[r.IntN(4)], bl[r.IntN(4)], "indent"})
+		} else if r.IntN(2) == 0 {
+			jobs = append(jobs, job{src, c09Affixes[r.IntN(len(c09Affixes))], c09Affixes[r.IntN(len(c09Affixes))], "indent"})
+		}
+	}
+	c.HitN("model/format-jobs", int64(len(jobs)))
+	const batch = 4000
+	for lo := 0; lo < len(jobs); lo += batch {
+		hi := min(lo+batch, len(jobs))
+		lines := make([]string, 0, hi-lo)
+		for _, j := range jobs[lo:hi] {
+			switch j.op {
+			case "compact":
+				lines = append(lines, "v1 compact "+hx(j.src))
+			case "validpda":
+				lines = append(lines, "v1 validpda "+hx(j.src))
+			default:
+				lines = append(lines, "v1 indent "+hx([]byte(j.prefix))+" "+hx([]byte(j.indent))+" "+hx(j.src))
+			}
+		}
+		ans := or.Ask(lines)
+		for k, j := range jobs[lo:hi] {
+			m := ans[k]
+			d := map[string]any{"src": trunc(string(j.src), 200), "prefix": j.prefix, "indent": j.indent, "model": trunc(m, 300)}
+			switch j.op {
+			case "validpda":
+				var v bool
+				if w.call(0, "v1.Valid", j.src, func() { v = jsonv1.Valid(j.src) }) {
+					continue
+				}
+				c.Case("model-validpda:"+string(j.src), len(j.src) > 0)
+				if (m == "1") != v {
+					d["v1"], d["classic"] = v, stdjson.Valid(j.src)
+					c.Violate("corr-validpda", "v1 validpda", j.src, d)
+				}
+			case "compact":
+				var d1, d2 bytes.Buffer
+				var e1 error
+				if w.call(0, "v1.Compact", j.src, func() { e1 = jsonv1.Compact(&d1, j.src) }) {
+					continue
+				}
+				e2 := stdjson.Compact(&d2, j.src)
+				v, cl := c09Res(d1.Bytes(), e1), c09Res(d2.Bytes(), e2)
+				c.Case("model-compact:"+string(j.src), len(j.src) > 0)
+				c.Hit("model/compact/" + cl[:2])
+				d["v1"], d["classic"] = trunc(v, 300), trunc(cl, 300)
+				if m != v {
+					c.Violate("corr-compact", "v1 compact", j.src, d)
+				}
+				if v != cl {
+					c.Violate("compact-model-set-mismatch", "v1.Compact", j.src, d)
+				}
+			default:
+				v, ok := c09V1Indent(w, j.src, j.prefix, j.indent)
+				if !ok {
+					continue
+				}
+				var d2 bytes.Buffer
+				e2 := stdjson.Indent(&d2, j.src, j.prefix, j.indent)
+				cl := c09Res(d2.Bytes(), e2)
+				c.Case("model-indent:"+j.prefix+"|"+j.indent+"|"+string(j.src), len(j.src) > 0)
+				if c09Blank(j.prefix) && c09Blank(j.indent) {
+					c.Hit("model/indent/blank/" + cl[:2])
+				} else {
+					c.Hit("model/indent/nonblank/" + cl[:2])
+				}
+				d["v1"], d["classic"] = trunc(v, 300), trunc(cl, 300)
+				if m != v {
+					c.Violate("corr-indent", "v1 indent", j.src, d)
+				}
+				if v != cl {
+					c.Violate("indent-model-grid-mismatch", "v1.Indent", j.src, d)
+				}
+			}
+		}
+	}
 }
